@@ -2,7 +2,8 @@
 import ast
 
 from ..algebra import Alg, Uninterpreted, atom, const, opaque_name
-from ..model import AnalysisError, attr_chain, call_name, stmts_in
+from ..flow import Taint, bindings, const_value, is_const, method_calls, names, regex_calls, root_name
+from ..model import AnalysisError, attr_chain, call_name, eq_keys, stmts_in
 
 EXPLANATION = (
     "Static rules over the style assembly in SVG.parse and the paint handling of GraphicObject (no execution). R14.1 "
@@ -34,10 +35,10 @@ def run(ctx):
     ctx.rule("R14.4", "currentColor source order")
     ctx.rule("R14.5", "opacity folding and stroke-width scaling")
     fn = ctx.fn("SVG.parse", "R14.1")
-    specificity(ctx, fn)
+    attrs = specificity(ctx, fn)
     stylesheet(ctx, fn)
-    defaults(ctx, fn)
-    current_color(ctx, fn)
+    vals = defaults(ctx, fn, attrs)
+    current_color(ctx, fn, attrs, vals)
     paint(ctx)
 
 
@@ -70,8 +71,8 @@ def fmt_kind(value):
     return None
 
 
-def sequence(stmts, fmt_of, acc, table):
-    """Ordered list of (kind, line) for `acc += table[K]` statements; loops unrolled twice."""
+def sequence(ctx, stmts, fmt_of, acc, tagvar):
+    """Ordered list of (kind, line, table) for `acc += table[K]` statements; loops unrolled twice."""
     out = []
     for s in stmts:
         if isinstance(s, ast.Assign) and isinstance(s.targets[0], ast.Name):
@@ -79,31 +80,51 @@ def sequence(stmts, fmt_of, acc, table):
             if k:
                 fmt_of[s.targets[0].id] = k
             continue
+        add = None
         if isinstance(s, ast.AugAssign) and isinstance(s.op, ast.Add) and isinstance(s.target, ast.Name) and s.target.id == acc:
-            v = s.value
-            if isinstance(v, ast.Subscript) and isinstance(v.value, ast.Name) and v.value.id == table:
-                k = classify_key(v.slice, fmt_of)
-                out.append((k, s.lineno))
-            elif isinstance(v, ast.Subscript) and ast.unparse(v.value) == "attributes" and ast.unparse(v.slice) in ("SVG_ATTR_STYLE", "'style'"):
-                out.append(("inline", s.lineno))
+            add = s.value
+        elif isinstance(s, ast.Assign) and isinstance(s.targets[0], ast.Name) and s.targets[0].id == acc and isinstance(s.value, ast.BinOp) \
+                and isinstance(s.value.op, ast.Add) and isinstance(s.value.left, ast.Name) and s.value.left.id == acc:
+            add = s.value.right
+        if add is not None:
+            v = add
+            if isinstance(v, ast.Subscript) and isinstance(v.value, ast.Name):
+                if is_const(ctx.m, v.slice, "style"):
+                    out.append(("inline", s.lineno, v.value.id))
+                elif is_const(ctx.m, v.slice, "*"):
+                    out.append(("*", s.lineno, v.value.id))
+                elif isinstance(v.slice, ast.Name) and v.slice.id == tagvar:
+                    out.append(("type", s.lineno, v.value.id))
+                elif isinstance(v.slice, ast.Name):
+                    out.append((fmt_of.get(v.slice.id), s.lineno, v.value.id))
+                else:
+                    out.append((fmt_kind(v.slice), s.lineno, v.value.id))
             elif isinstance(v, ast.Constant) and v.value == ";":
                 pass
             else:
-                out.append((None, s.lineno))
+                out.append((None, s.lineno, None))
             continue
         if isinstance(s, ast.If):
-            out += sequence(s.body, fmt_of, acc, table)
-            out += sequence(s.orelse, fmt_of, acc, table)
+            out += sequence(ctx, s.body, fmt_of, acc, tagvar)
+            out += sequence(ctx, s.orelse, fmt_of, acc, tagvar)
             continue
         if isinstance(s, ast.For):
-            once = sequence(s.body, fmt_of, acc, table)
+            once = sequence(ctx, s.body, fmt_of, acc, tagvar)
             out += once + once
             continue
     return out
 
 
+def main_loop(ctx, fn, rule):
+    """for <tag>, <event>, <elem> in ...: the document loop of SVG.parse"""
+    loops = [s for s in fn.body if isinstance(s, ast.For) and isinstance(s.target, ast.Tuple) and len(s.target.elts) == 3 and all(isinstance(e, ast.Name) for e in s.target.elts)]
+    ctx.need(len(loops) == 1, rule, "SVG.parse: document loop not found")
+    return loops[0], [e.id for e in loops[0].target.elts]
+
+
 def specificity(ctx, fn):
     # the region: from `style = ""` to the fold loop `for equate in style.split(";")`
+    loop, (tagvar, _, elemvar) = main_loop(ctx, fn, "R14.1")
     start = fold = None
     body = None
     for node in ast.walk(fn):
@@ -112,22 +133,24 @@ def specificity(ctx, fn):
             if isinstance(b, list):
                 for i, s in enumerate(b):
                     if isinstance(s, ast.Assign) and isinstance(s.targets[0], ast.Name) and isinstance(s.value, ast.Constant) and s.value.value == "" \
-                            and any(isinstance(x, ast.For) and "%s.split" % s.targets[0].id in ast.unparse(x.iter) for x in b[i:]):
+                            and any(isinstance(x, ast.For) and s.targets[0].id in names(x.iter) and method_calls(x.iter, "split") for x in b[i:]):
                         body, start = b, i
     ctx.need(body is not None, "R14.1", "style accumulator not found")
     acc = body[start].targets[0].id
     for j in range(start, len(body)):
-        if isinstance(body[j], ast.For) and "%s.split" % acc in ast.unparse(body[j].iter):
+        if isinstance(body[j], ast.For) and acc in names(body[j].iter) and method_calls(body[j].iter, "split"):
             fold = j
+            break
     ctx.need(fold is not None, "R14.1", "fold loop not found")
-    table = "styles"
-    seq = sequence(body[start + 1:fold], {}, acc, table)
-    ctx.need(len(seq) >= 6 and all(k is not None for k, _ in seq), "R14.1", "style assembly statements not classified: %s" % seq)
-    kinds_present = {k for k, _ in seq}
+    seq = sequence(ctx, body[start + 1:fold], {}, acc, tagvar)
+    ctx.need(len(seq) >= 6 and all(k is not None for k, _, _ in seq), "R14.1", "style assembly statements not classified: %s" % [(k, l) for k, l, _ in seq])
+    tables = {t for k, _, t in seq if k != "inline"}
+    ctx.need(len(tables) == 1, "R14.1", "style assembly reads more than one rule table: %s" % sorted(tables))
+    kinds_present = {k for k, _, _ in seq}
     for k in WEIGHT:
         ctx.ob("R14.1", "style assembly[%s selector applied]" % k, k in kinds_present, str(sorted(kinds_present)), body[start].lineno, "selector kind is never consulted")
     prev = None
-    for k, line in seq:
+    for k, line, _ in seq:
         if prev is not None:
             ok = WEIGHT[prev[0]] <= WEIGHT[k]
             ctx.ob("R14.1", "style assembly[%s then %s]" % (prev[0], k), ok, "line %d (weight %d) precedes line %d (weight %d)" % (prev[1], WEIGHT[prev[0]], line, WEIGHT[k]), line,
@@ -135,119 +158,335 @@ def specificity(ctx, fn):
         prev = (k, line)
     # the fold assigns unconditionally: last wins; it writes into the attribute dictionary built from the element's attributes
     f = body[fold]
-    asg = [s for s in ast.walk(f) if isinstance(s, ast.Assign) and isinstance(s.targets[0], ast.Subscript) and ast.unparse(s.targets[0].value) == "attributes"]
-    guarded = any(isinstance(getattr(a, "_parent", None), ast.If) and "not in attributes" in ast.unparse(a._parent.test) for a in asg)
-    ctx.ob("R14.1", "style fold[last wins, over presentation attributes]", len(asg) == 1 and not guarded, "", f.lineno,
+    inline_dicts = {t for k, _, t in seq if k == "inline"}
+    asg = [s for s in ast.walk(f) if isinstance(s, ast.Assign) and isinstance(s.targets[0], ast.Subscript) and isinstance(s.targets[0].value, ast.Name)]
+    ctx.need(asg, "R14.1", "style fold: no store into the attribute dictionary found")
+    attrs = asg[0].targets[0].value.id
+
+    def membership_guard(a):
+        p = getattr(a, "_parent", None)
+        while p is not None and p is not f:
+            if isinstance(p, ast.If):
+                for c in ast.walk(p.test):
+                    if isinstance(c, ast.Compare) and isinstance(c.ops[0], (ast.In, ast.NotIn)) and attrs in names(c.comparators[0]):
+                        return True
+            p = getattr(p, "_parent", None)
+        return False
+
+    ok = len(asg) == 1 and not membership_guard(asg[0]) and inline_dicts == {attrs}
+    ctx.ob("R14.1", "style fold[last wins, over presentation attributes]", ok, "stores: %d into %s" % (len(asg), attrs), f.lineno,
            "declarations are applied left to right, each overriding earlier ones and the presentation attribute")
-    base = any(isinstance(s, ast.Assign) and ast.unparse(s.targets[0]) == "attributes" and ast.unparse(s.value) == "dict(elem.attrib)" and s.lineno < body[start].lineno for s in ast.walk(fn))
-    ctx.ob("R14.1", "style fold[base = presentation attributes]", base, "", body[start].lineno, "presentation attributes have the lowest priority")
-    ok = "split(';')" in ast.unparse(f.iter) and any("split(':')" in ast.unparse(s) for s in ast.walk(f)) and any(".strip()" in ast.unparse(s) for s in ast.walk(f))
-    ctx.ob("R14.1", "style fold[declaration syntax]", ok, "", f.lineno, "declarations are separated by ';', property and value by ':', white space trimmed")
+    base = [v for t, v, n in bindings(loop) if isinstance(t, ast.Name) and t.id == attrs and n.lineno < body[start].lineno]
+    ok = bool(base) and all(any(isinstance(x, ast.Attribute) and x.attr == "attrib" and root_name(x) == elemvar for x in ast.walk(v)) for v in base)
+    ctx.ob("R14.1", "style fold[base = presentation attributes]", ok, "", body[start].lineno, "presentation attributes have the lowest priority")
+    seps = {const_value(ctx.m, c.args[0]) for c in method_calls(f, "split") if c.args}
+    ok = {";", ":"} <= seps and len(method_calls(f, "strip")) >= 2
+    ctx.ob("R14.1", "style fold[declaration syntax]", ok, str(sorted(map(str, seps))), f.lineno, "declarations are separated by ';', property and value by ':', white space trimmed")
+    return attrs
 
 
 def stylesheet(ctx, fn):
+    loop, (tagvar, _, elemvar) = main_loop(ctx, fn, "R14.2")
     br = None
     for s in ast.walk(fn):
-        if isinstance(s, ast.If) and ast.unparse(s.test) in ("SVG_TAG_STYLE == tag", "tag == SVG_TAG_STYLE") and any("REGEX_CSS_STYLE" in ast.unparse(x) for x in s.body):
-            br = s
+        if isinstance(s, ast.If):
+            keys = eq_keys(s.test, lambda n: isinstance(n, ast.Name) and n.id == tagvar, ctx.m)
+            if keys == ["style"] and regex_calls(ctx.m, s.body, lambda p: "{" in p):
+                br = s
     ctx.need(br is not None, "R14.2", "style element branch not found")
-    lines = {}
-    for s in stmts_in(br.body):
-        src = ast.unparse(s)
-        if isinstance(s, ast.Assign) and "REGEX_CSS_COMMENT" in src and "re.sub" in src:
-            lines["strip"] = s.lineno
-        if isinstance(s, ast.Assign) and "REGEX_CSS_STYLE" in src:
-            lines["match"] = s.lineno
-    ctx.ob("R14.2", "stylesheet[comments stripped before matching]", "strip" in lines and "match" in lines and lines["strip"] < lines["match"], str(lines), br.lineno,
+    strip = regex_calls(ctx.m, br.body, lambda p: "/\\*" in p or "\\/\\*" in p)
+    match = regex_calls(ctx.m, br.body, lambda p: "{" in p)
+    ctx.need(len(match) == 1, "R14.2", "style element branch: rule matcher not found")
+    mcall, _, margs = match[0]
+    ok = False
+    if len(strip) == 1 and strip[0][1] == "sub":
+        scall = strip[0][0]
+        t = Taint(br.body, lambda n: n is scall)
+        # the text handed to the matcher must be computed from the stripped text and from nothing that bypasses it
+        ok = all(t.derived(a) for a in margs) and bool(margs)
+        if ok:
+            # no later rebinding of the matched text from the raw element text
+            raw = Taint(br.body, lambda n: isinstance(n, ast.Attribute) and n.attr == "text" and root_name(n) == elemvar)
+            direct = [a for a in margs if any(isinstance(n, ast.Attribute) and n.attr == "text" for n in ast.walk(a))]
+            ok = not direct and scall.lineno <= mcall.lineno and any(raw.derived(a) for a in scall.args)
+    ctx.ob("R14.2", "stylesheet[comments stripped before matching]", ok, "strip calls: %d, match calls: %d" % (len(strip), len(match)), br.lineno,
            "a comment containing braces or selectors must not be read as a rule")
-    src = ast.unparse(br)
-    ctx.ob("R14.2", "stylesheet[selector lists]", "key.split(',')" in src and ".strip()" in src, "", br.lineno, "a comma list applies the declarations to every selector in it")
-    ok = "if sel not in styles" in src and "styles[sel] = value" in src and "styles[sel] += value" in src
-    ctx.ob("R14.2", "stylesheet[repeated selectors accumulate in order]", ok, "", br.lineno, "a later rule for the same selector is appended after the earlier one (and so wins)")
-    ok = "endswith(';')" in src and "styles[sel] += ';'" in src
-    ctx.ob("R14.2", "stylesheet[separator between accumulated blocks]", ok, "", br.lineno, "blocks are joined with a declaration separator")
+    # stores into the rule table
+    stores = []
+    for n in ast.walk(br):
+        if isinstance(n, ast.Assign) and isinstance(n.targets[0], ast.Subscript) and isinstance(n.targets[0].value, ast.Name):
+            stores.append((n.targets[0], n.value, n, "="))
+        elif isinstance(n, ast.AugAssign) and isinstance(n.target, ast.Subscript) and isinstance(n.target.value, ast.Name) and isinstance(n.op, ast.Add):
+            stores.append((n.target, n.value, n, "+="))
+    ctx.need(stores, "R14.2", "style element branch: no store into the rule table")
+    table = stores[0][0].value.id
+    stores = [x for x in stores if x[0].value.id == table]
+    fromm = Taint(br.body, lambda n: n is mcall)
+    comma = [c for c in method_calls(br, "split") if c.args and is_const(ctx.m, c.args[0], ",") and fromm.derived(c.func.value)]
+    ok = False
+    if comma:
+        fromsplit = Taint(br.body, lambda n: any(n is c for c in comma))
+        ok = all(fromsplit.derived(t.slice) for t, _, _, _ in stores) and any(fromsplit.derived(c.func.value) for c in method_calls(br, "strip"))
+    ctx.ob("R14.2", "stylesheet[selector lists]", ok, "", br.lineno, "a comma list applies the declarations to every selector in it (white space trimmed)")
+    # accumulation: an existing entry is extended at its end, never replaced and never prefixed
+    def reads_entry(e, key):
+        for n in ast.walk(e):
+            if isinstance(n, ast.Subscript) and isinstance(n.value, ast.Name) and n.value.id == table and ast.dump(n.slice) == ast.dump(key):
+                return True
+            if isinstance(n, ast.Call) and isinstance(n.func, ast.Attribute) and n.func.attr in ("get", "setdefault") and isinstance(n.func.value, ast.Name) and n.func.value.id == table:
+                return True
+        return False
+
+    appends = [x for x in stores if x[3] == "+=" or (isinstance(x[1], ast.BinOp) and isinstance(x[1].op, ast.Add) and reads_entry(x[1].left, x[0].slice))]
+    prepends = [x for x in stores if x[3] == "=" and isinstance(x[1], ast.BinOp) and isinstance(x[1].op, ast.Add) and reads_entry(x[1].right, x[0].slice) and not reads_entry(x[1].left, x[0].slice)]
+    plain = [x for x in stores if x[3] == "=" and not reads_entry(x[1], x[0].slice)]
+
+    def guarded_by_absence(st):
+        """the plain store happens only when the selector has no entry yet"""
+        p = getattr(st, "_parent", None)
+        child = st
+        while p is not None and p is not br:
+            if isinstance(p, ast.If):
+                for c in ast.walk(p.test):
+                    if isinstance(c, ast.Compare) and len(c.ops) == 1 and table in names(c.comparators[0]):
+                        if isinstance(c.ops[0], ast.NotIn) and child in p.body and not isinstance(getattr(c, "_parent", None), ast.UnaryOp):
+                            return True
+                        if isinstance(c.ops[0], ast.In) and (child in p.orelse or isinstance(getattr(c, "_parent", None), ast.UnaryOp) and child in p.body):
+                            return True
+            child = p
+            p = getattr(p, "_parent", None)
+        return False
+
+    ok = bool(appends) and not prepends and all(guarded_by_absence(x[2]) for x in plain) and any(fromm.derived(x[1]) for x in appends)
+    ctx.ob("R14.2", "stylesheet[repeated selectors accumulate in order]", ok, "appends %d, prepends %d, plain stores %d" % (len(appends), len(prepends), len(plain)), br.lineno,
+           "a later rule for the same selector is appended after the earlier one (and so wins)")
+    semi = [x for x in stores if any(isinstance(n, ast.Constant) and n.value == ";" for n in ast.walk(x[1]))]
+    joins = [c for c in method_calls(br, "join") if is_const(ctx.m, c.func.value, ";")]
+    ctx.ob("R14.2", "stylesheet[separator between accumulated blocks]", bool(semi or joins), "", br.lineno, "blocks are joined with a declaration separator")
 
 
-def defaults(ctx, fn):
+def defaults(ctx, fn, attrs):
+    loop, (tagvar, _, elemvar) = main_loop(ctx, fn, "R14.3")
     init = None
     for s in fn.body:
-        if isinstance(s, ast.Assign) and isinstance(s.value, ast.Dict) and ast.unparse(s.targets[0]) == "values":
-            init = s
+        if isinstance(s, ast.Assign) and isinstance(s.value, ast.Dict) and isinstance(s.targets[0], ast.Name):
+            keys = {const_value(ctx.m, k) for k in s.value.keys if k is not None}
+            if {"fill", "stroke"} <= keys:
+                init = s
     ctx.need(init is not None, "R14.3", "initial values not found")
-    d = {ast.unparse(k): ast.unparse(v) for k, v in zip(init.value.keys, init.value.values)}
-    ctx.ob("R14.3", "initial values[fill black]", d.get("SVG_ATTR_FILL") == "'black'", str(d), init.lineno, "the initial fill is black")
-    ctx.ob("R14.3", "initial values[stroke none]", d.get("SVG_ATTR_STROKE") == "'none'", str(d), init.lineno, "the initial stroke is none")
-    ctx.ob("R14.3", "initial values[color from caller]", d.get("SVG_ATTR_COLOR") == "color", str(d), init.lineno, "currentColor outside the document is the caller's colour")
-    src = ast.unparse(fn)
-    ctx.ob("R14.3", "inheritance[children start from a copy of the parent's values]", "current_values = values\n" in src and "values = {}\n" in src and "values.update(current_values)" in src, "", fn.lineno,
+    vals = init.targets[0].id
+    d = {const_value(ctx.m, k): v for k, v in zip(init.value.keys, init.value.values) if k is not None}
+    ctx.ob("R14.3", "initial values[fill black]", is_const(ctx.m, d.get("fill"), "black"), "", init.lineno, "the initial fill is black")
+    ctx.ob("R14.3", "initial values[stroke none]", is_const(ctx.m, d.get("stroke"), "none"), "", init.lineno, "the initial stroke is none")
+    params = {a.arg for a in fn.args.args + fn.args.kwonlyargs}
+    c = d.get("color")
+    ctx.ob("R14.3", "initial values[color from caller]", isinstance(c, ast.Name) and c.id == "color" and "color" in params, "", init.lineno, "currentColor outside the document is the caller's colour")
+    # children start from a copy: inside the loop the inherited dictionary is rebound to a fresh dictionary filled from the old one
+    rebinds = [(v, n) for t, v, n in bindings(loop) if isinstance(t, ast.Name) and t.id == vals and isinstance(n, ast.Assign)]
+    olds = {vals} | {t.id for t, v, n in bindings(loop) if isinstance(t, ast.Name) and isinstance(v, ast.Name) and v.id == vals}
+    fresh_copy = False
+    for v, n in rebinds:
+        if isinstance(v, ast.Dict) and not v.keys:
+            ups = [c for c in method_calls(loop, "update") if isinstance(c.func.value, ast.Name) and c.func.value.id == vals and c.args and isinstance(c.args[0], ast.Name) and c.args[0].id in olds - {vals} and c.lineno > n.lineno]
+            fresh_copy = fresh_copy or bool(ups)
+        elif isinstance(v, ast.Dict) and any(k is None and isinstance(x, ast.Name) and x.id in olds for k, x in zip(v.keys, v.values)):
+            fresh_copy = True
+        elif isinstance(v, ast.Call) and call_name(v) in ("dict", "copy", "copy.copy") and v.args and isinstance(v.args[0], ast.Name) and v.args[0].id in olds:
+            fresh_copy = True
+        elif isinstance(v, ast.Call) and isinstance(v.func, ast.Attribute) and v.func.attr == "copy" and isinstance(v.func.value, ast.Name) and v.func.value.id in olds:
+            fresh_copy = True
+    ctx.ob("R14.3", "inheritance[children start from a copy of the parent's values]", fresh_copy, "rebindings of %s in the loop: %d" % (vals, len(rebinds)), loop.lineno,
            "a property the element does not set is inherited; siblings must not see each other's values")
-    ctx.ob("R14.3", "inheritance[element's own values override inherited]", "values.update(attributes)" in src, "", fn.lineno, "")
+    own = [c for c in method_calls(loop, "update") if isinstance(c.func.value, ast.Name) and c.func.value.id == vals and c.args and attrs in names(c.args[0])]
+    own2 = [v for v, n in rebinds if isinstance(v, ast.Dict) and v.values and isinstance(v.values[-1], ast.Name) and v.values[-1].id == attrs and v.keys[-1] is None]
+    ctx.ob("R14.3", "inheritance[element's own values override inherited]", bool(own or own2), "", loop.lineno, "what the element sets wins over what it inherits")
     g = ctx.fn("GraphicObject.property_by_values", "R14.3")
-    gs = ast.unparse(g)
-    ctx.ob("R14.3", "stroke width default 1", "values.get('stroke_width', 1.0)" in gs and "values.get(SVG_ATTR_STROKE_WIDTH, self.stroke_width)" in gs, "", g.lineno, "the initial stroke width is 1")
+    pv = g.args.args[1].arg
+    gets = [c for c in method_calls(g, "get") if isinstance(c.func.value, ast.Name) and c.func.value.id == pv and c.args and const_value(ctx.m, c.args[0]) in ("stroke-width", "stroke_width")]
+    keys = {const_value(ctx.m, c.args[0]) for c in gets}
+    # the fallback chain must bottom out in 1
+    one = any(len(c.args) == 2 and const_value(ctx.m, c.args[1]) in (1, 1.0) for c in gets)
+    none_default = [c for c in gets if len(c.args) < 2 or const_value(ctx.m, c.args[1], "x") is None]
+    ctx.ob("R14.3", "stroke width default 1", "stroke-width" in keys and one and not none_default, "keys read: %s" % sorted(keys), g.lineno, "the initial stroke width is 1")
+    return vals
 
 
-def current_color(ctx, fn):
-    blocks = {}
-    for s in ast.walk(fn):
-        if isinstance(s, ast.If) and "SVG_VALUE_CURRENT_COLOR" in ast.unparse(s.test):
-            for prop in ("SVG_ATTR_FILL", "SVG_ATTR_STROKE"):
-                if "attributes[%s] == SVG_VALUE_CURRENT_COLOR" % prop in ast.unparse(s.test):
-                    blocks[prop] = s
-    for prop in ("SVG_ATTR_FILL", "SVG_ATTR_STROKE"):
-        b = blocks.get(prop)
-        ok = False
-        if b is not None and len(b.body) == 1 and isinstance(b.body[0], ast.If):
-            i = b.body[0]
-            ok = ast.unparse(i.test) == "SVG_ATTR_COLOR in attributes" and ast.unparse(i.body[0]) == "attributes[%s] = attributes[SVG_ATTR_COLOR]" % prop \
-                and i.orelse and ast.unparse(i.orelse[0]) == "attributes[%s] = values[SVG_ATTR_COLOR]" % prop
-        ctx.ob("R14.4", "currentColor[%s]" % prop, ok, "", b.lineno if b is not None else fn.lineno,
+def _sources(ctx, e, defs=None):
+    """Preference-ordered (dict, key) sources of an expression: D[K] / D.get(K, E) / D[K] if K in D else E (a local with one definition is looked through)."""
+    if isinstance(e, ast.Name) and defs and len(defs.get(e.id, ())) == 1:
+        return _sources(ctx, defs[e.id][0], None)
+    if isinstance(e, ast.Subscript) and isinstance(e.value, ast.Name):
+        return [(e.value.id, const_value(ctx.m, e.slice))]
+    if isinstance(e, ast.Call) and isinstance(e.func, ast.Attribute) and e.func.attr == "get" and isinstance(e.func.value, ast.Name) and e.args:
+        rest = _sources(ctx, e.args[1], defs) if len(e.args) > 1 else [(None, None)]
+        return None if rest is None else [(e.func.value.id, const_value(ctx.m, e.args[0]))] + rest
+    if isinstance(e, ast.IfExp):
+        g = _membership(ctx, e.test)
+        a, b = _sources(ctx, e.body, defs), _sources(ctx, e.orelse, defs)
+        if g is None or a is None or b is None:
+            return None
+        (d, k), positive = g
+        first, second = (a, b) if positive else (b, a)
+        return first + second if first and first[0] == (d, k) else None
+    return None
+
+
+def _membership(ctx, test):
+    """`K in D` -> ((D, K), True); `K not in D` -> ((D, K), False)"""
+    neg = False
+    if isinstance(test, ast.UnaryOp) and isinstance(test.op, ast.Not):
+        neg, test = True, test.operand
+    if isinstance(test, ast.Compare) and len(test.ops) == 1 and isinstance(test.ops[0], (ast.In, ast.NotIn)) and isinstance(test.comparators[0], ast.Name):
+        pos = isinstance(test.ops[0], ast.In) != neg
+        return (test.comparators[0].id, const_value(ctx.m, test.left)), pos
+    return None
+
+
+def current_color(ctx, fn, attrs, vals):
+    cc = [k for k, v in ctx.m.consts.items() if isinstance(v, str) and v.lower() == "currentcolor"]
+
+    def is_cc(n):
+        v = const_value(ctx.m, n)
+        return isinstance(v, str) and v.lower() == "currentcolor"
+
+    def reads_prop(x, prop):
+        if isinstance(x, ast.Subscript) and is_const(ctx.m, x.slice, prop):
+            return True
+        return isinstance(x, ast.Call) and isinstance(x.func, ast.Attribute) and x.func.attr == "get" and x.args and is_const(ctx.m, x.args[0], prop)
+
+    defs = {}
+    for tg, v, n in bindings(fn):
+        if isinstance(tg, ast.Name):
+            defs.setdefault(tg.id, []).append(v)
+    for prop in ("fill", "stroke"):
+        blk = None
+        for s in ast.walk(fn):
+            if isinstance(s, ast.If):
+                for c in ast.walk(s.test):
+                    if isinstance(c, ast.Compare) and len(c.ops) == 1 and isinstance(c.ops[0], ast.Eq):
+                        sides = [c.left, c.comparators[0]]
+                        if any(is_cc(x) for x in sides) and any(reads_prop(x, prop) for x in sides):
+                            blk = s
+        ctx.need(blk is not None, "R14.4", "currentColor test for %s not found" % prop)
+        # every store of the property inside the block, with its preference-ordered sources
+        order = None
+        stores = [n for n in ast.walk(blk) if isinstance(n, ast.Assign) and isinstance(n.targets[0], ast.Subscript) and is_const(ctx.m, n.targets[0].slice, prop)]
+        if len(stores) == 1 and getattr(stores[0], "_parent", None) is blk:
+            order = _sources(ctx, stores[0].value, defs)
+        elif len(stores) == 2:
+            inner = getattr(stores[0], "_parent", None)
+            if isinstance(inner, ast.If) and getattr(stores[1], "_parent", None) is inner and inner.orelse:
+                g = _membership(ctx, inner.test)
+                if g is not None:
+                    (d, k), positive = g
+                    a = [n for n in stores if n in inner.body]
+                    b = [n for n in stores if n in inner.orelse]
+                    if len(a) == 1 and len(b) == 1:
+                        first, second = (a[0], b[0]) if positive else (b[0], a[0])
+                        fs, ss = _sources(ctx, first.value, defs), _sources(ctx, second.value, defs)
+                        if fs is not None and ss is not None and fs and fs[0] == (d, k):
+                            order = fs + ss
+        ctx.need(order is not None, "R14.4", "currentColor resolution for %s: idiom not recognised (line %d)" % (prop, blk.lineno))
+        want = [(attrs, "color"), (vals, "color")]
+        while order and order[-1] == (None, None):
+            order = order[:-1]
+        ctx.ob("R14.4", "currentColor[SVG_ATTR_%s]" % prop.upper(), order == want, "sources in order of preference: %s" % order, blk.lineno,
                "currentColor is the element's own color property if it sets one, otherwise the inherited one")
 
 
 def paint(ctx):
     g = ctx.fn("GraphicObject.property_by_values", "R14.5")
-    src = ast.unparse(g)
+    pv = g.args.args[1].arg
     for kind in ("stroke", "fill"):
-        ok = "self.%s.opacity = float(%s_opacity)" % (kind, kind) in src and "%s_opacity = values.get(SVG_ATTR_%s_OPACITY, %s_opacity)" % (kind, kind.upper(), kind) in src \
-            and "self.%s = Color(%s) if %s is not None else None" % (kind, kind, kind) in src
-        ctx.ob("R14.5", "GraphicObject.property_by_values[%s opacity folded]" % kind, ok, "", g.lineno, "%s-opacity multiplies into the colour's alpha channel" % kind)
+        def src_colour(n, kind=kind):
+            return isinstance(n, ast.Call) and isinstance(n.func, ast.Attribute) and n.func.attr == "get" and isinstance(n.func.value, ast.Name) and n.func.value.id == pv \
+                and n.args and is_const(ctx.m, n.args[0], kind)
+
+        def src_opacity(n, kind=kind):
+            return isinstance(n, ast.Call) and isinstance(n.func, ast.Attribute) and n.func.attr == "get" and isinstance(n.func.value, ast.Name) and n.func.value.id == pv \
+                and n.args and is_const(ctx.m, n.args[0], kind + "-opacity")
+
+        tc = Taint(g, src_colour, through_containers=False)
+        to = Taint(g, src_opacity, through_containers=False)
+        col = [n for n in ast.walk(g) if isinstance(n, ast.Assign) and attr_chain(n.targets[0]) == ["self", kind]]
+        okc = bool(col) and all(any(call_name(c) == "Color" and c.args and tc.derived(c.args[0]) for c in ast.walk(n.value) if isinstance(c, ast.Call)) for n in col)
+        op = [n for n in ast.walk(g) if isinstance(n, ast.Assign) and attr_chain(n.targets[0]) == ["self", kind, "opacity"]]
+        oko = len(op) >= 1 and all(to.derived(n.value) for n in op)
+        ctx.ob("R14.5", "GraphicObject.property_by_values[%s opacity folded]" % kind, okc and oko, "colour stores %d, opacity stores %d" % (len(col), len(op)), g.lineno,
+               "%s-opacity multiplies into the colour's alpha channel" % kind)
     op = ctx.m.cls("Color").setters.get("opacity")
-    s = ast.unparse(op)
-    ctx.ob("R14.5", "Color.opacity setter", "round(opacity * 255.0)" in s and "self.alpha = a" in s, "", op.lineno, "opacity sets alpha = round(255 x opacity)")
+    ctx.need(op is not None, "R14.5", "Color.opacity setter not found")
+    par = op.args.args[1].arg
+
+    def scaled(n):
+        if isinstance(n, ast.Call) and call_name(n) == "round" and n.args and isinstance(n.args[0], ast.BinOp) and isinstance(n.args[0].op, ast.Mult):
+            l, r = n.args[0].left, n.args[0].right
+            return (isinstance(l, ast.Name) and l.id == par and const_value(ctx.m, r) in (255, 255.0)) or (isinstance(r, ast.Name) and r.id == par and const_value(ctx.m, l) in (255, 255.0))
+        return False
+
+    t = Taint(op, scaled, through_containers=False)
+    st = [n for n in ast.walk(op) if isinstance(n, ast.Assign) and attr_chain(n.targets[0]) == ["self", "alpha"]]
+    ctx.ob("R14.5", "Color.opacity setter", bool(st) and all(t.derived(n.value) for n in st), "", op.lineno, "opacity sets alpha = round(255 x opacity)")
     isw = ctx.m.cls("GraphicObject").getters.get("implicit_stroke_width")
     ctx.need(isw is not None, "R14.5", "implicit_stroke_width not found")
     rets = [r for r in ast.walk(isw) if isinstance(r, ast.Return) and isinstance(r.value, ast.BinOp)]
     ok = False
     detail = ""
+    defs = {}
+    for tg, v, n in bindings(isw):
+        if isinstance(tg, ast.Name):
+            defs.setdefault(tg.id, []).append((v, n))
+    multi = {k for k, v in defs.items() if len(v) > 1}
     if rets:
         a = Alg()
-        for st in stmts_in(isw.body):
-            if isinstance(st, ast.Assign) and isinstance(st.targets[0], ast.Name) and st.targets[0].id in ("width", "det"):
+        for stx in stmts_in(isw.body):
+            if isinstance(stx, ast.Assign) and isinstance(stx.targets[0], ast.Name) and stx.targets[0].id not in multi:
                 try:
-                    a.assign(st)
+                    a.assign(stx)
                 except Uninterpreted:
                     pass
         got = a.ev(rets[0].value)
-        want = atom("self.stroke_width") * atom(opaque_name("sqrt", [atom(opaque_name("abs", [atom("transform.determinant")]))]))
         detail = str(got)
-        ok = got == want
+        for tname in sorted(multi) or ["self.transform"]:
+            want = atom("self.stroke_width") * atom(opaque_name("sqrt", [atom(opaque_name("abs", [atom("%s.determinant" % tname)]))]))
+            ok = ok or got == want
     ctx.ob("R14.5", "implicit_stroke_width[width x sqrt|det|]", ok, detail, isw.lineno, "the stroke scales with the square root of the absolute determinant of the transform")
-    s = ast.unparse(isw)
-    ok = "SVG_ATTR_VECTOR_EFFECT in self.values" in s and "SVG_VALUE_NON_SCALING_STROKE in self.values[SVG_ATTR_VECTOR_EFFECT]" in s and "transform = Matrix(self.values.get('viewport_transform', ''))" in s \
-        and "transform = self.transform" in s
+    ok = False
+    for tname in multi:
+        plain = [v for v, n in defs[tname] if attr_chain(v) == ["self", "transform"]]
+        cond = []
+        for v, n in defs[tname]:
+            p = getattr(n, "_parent", None)
+            if isinstance(p, ast.If) and n in p.body:
+                tv = {const_value(ctx.m, x) for x in ast.walk(p.test) if isinstance(x, (ast.Name, ast.Constant))}
+                if {"vector-effect", "non-scaling-stroke"} <= tv and call_name(v) == "Matrix" and any(isinstance(x, ast.Constant) and x.value == "viewport_transform" for x in ast.walk(v)):
+                    cond.append(v)
+        ok = ok or (len(plain) == 1 and len(cond) == 1 and len(defs[tname]) == 2)
     ctx.ob("R14.5", "implicit_stroke_width[non-scaling-stroke uses the viewport transform]", ok, "", isw.lineno, "under vector-effect: non-scaling-stroke only the viewport transform scales the stroke")
     r = ctx.fn("GraphicObject.reify", "R14.5")
-    ctx.ob("R14.5", "GraphicObject.reify", "self.stroke_width = self.implicit_stroke_width" in ast.unparse(r), "", r.lineno, "reifying applies the effective stroke width")
+    t = Taint(r, lambda n: attr_chain(n) == ["self", "implicit_stroke_width"], through_containers=False)
+    st = [n for n in ast.walk(r) if isinstance(n, ast.Assign) and attr_chain(n.targets[0]) == ["self", "stroke_width"]]
+    ctx.ob("R14.5", "GraphicObject.reify", bool(st) and all(t.derived(n.value) for n in st), "", r.lineno, "reifying applies the effective stroke width")
     rn = ctx.fn("GraphicObject.render", "R14.5")
-    call = [c for c in ast.walk(rn) if isinstance(c, ast.Call) and isinstance(c.func, ast.Attribute) and c.func.attr == "value" and "stroke_width" in ast.unparse(c.func.value)]
+    call = [c for c in ast.walk(rn) if isinstance(c, ast.Call) and isinstance(c.func, ast.Attribute) and c.func.attr == "value" and "stroke_width" in (attr_chain(c.func.value) or [])]
     ctx.need(len(call) == 1, "R14.5", "GraphicObject.render: stroke width resolution not found")
     rl = [k.value for k in call[0].keywords if k.arg == "relative_length"]
     ok = False
     detail = ""
-    if rl:
-        got = Alg().ev(rl[0])
-        w, h = atom("width"), atom("height")
+    dims = {}
+    for tg, v, n in bindings(rn):
+        if isinstance(tg, ast.Name) and isinstance(v, ast.Call) and isinstance(v.func, ast.Attribute) and v.func.attr == "get" and v.args and const_value(ctx.m, v.args[0]) in ("width", "height"):
+            dims[const_value(ctx.m, v.args[0])] = tg.id
+    if rl and len(dims) == 2:
+        a = Alg()
+        for stx in stmts_in(rn.body):
+            if isinstance(stx, ast.Assign) and isinstance(stx.targets[0], ast.Name) and stx.targets[0].id not in dims.values():
+                try:
+                    a.assign(stx)
+                except Uninterpreted:
+                    pass
+        got = a.ev(rl[0])
+        w, h = atom(dims["width"]), atom(dims["height"])
         want = atom(opaque_name("sqrt", [(w * w + h * h) / const(2)]))
         alt = atom(opaque_name("sqrt", [w * w + h * h])) / atom(opaque_name("sqrt", [const(2)]))
         detail = str(got)
